@@ -99,6 +99,7 @@ where
         status_on_unsat: bool,
     ) -> (bool, Option<Vec<&Argument<T>>>) {
         let mut merged = Vec::new();
+        let mut disjunction_satisfied = false;
         for cc_af in ConnectedComponentsComputer::iter_connected_components(self.af) {
             let mut solver = (self.solver_factory)();
             self.constraints_encoder
@@ -114,6 +115,7 @@ where
                     let clause = args_in_cc
                         .iter()
                         .map(|a| self.constraints_encoder.arg_to_lit(a))
+                        .chain(std::iter::once(selector.negate()))
                         .collect::<Vec<Literal>>();
                     opt_selector = Some(selector);
                     solver.add_clause(clause);
@@ -127,9 +129,19 @@ where
                 let result = solver
                     .solve_under_assumptions(&assumption_lits)
                     .unwrap_model();
-                if assumption_polarity {
+                let result = if assumption_polarity {
                     solver.add_clause(vec![opt_selector.unwrap().negate()]);
-                }
+                    match result {
+                        Some(assignment) => {
+                            disjunction_satisfied = true;
+                            Some(assignment)
+                        }
+                        // the disjunction may be satisfied in another connected component
+                        None => solver.solve().unwrap_model(),
+                    }
+                } else {
+                    result
+                };
                 match result {
                     Some(assignment) => {
                         let cc_ext = self
@@ -164,6 +176,9 @@ where
                     None => return (status_on_unsat, None),
                 }
             }
+        }
+        if assumption_polarity && !disjunction_satisfied {
+            return (status_on_unsat, None);
         }
         (!status_on_unsat, Some(merged))
     }
